@@ -11,7 +11,10 @@ import common
 import xdrlib as X
 from common import hexb
 
+import warnings
+
 LEVEL = "proof"
+warnings.filterwarnings("ignore")
 
 
 # ---------------------------------------------------------------------------------------------------
